@@ -142,7 +142,10 @@ def check_property(pid, tier, seed, shared=None):
             continue
         violations.append((oid, diags))
 
-    discharged = len(mine) - len([1 for oid in mine if oid in failed])
+    # obligations listed as open known findings are reported separately, not counted as proved or as owed
+    known_oids = {oid for oid, _ in known_hit}
+    owed = {oid: o for oid, o in mine.items() if oid not in known_oids}
+    discharged = len(owed) - len([1 for oid in owed if oid in failed])
     # evidence
     fns = sorted(my_fids)
     fn_info = []
@@ -164,7 +167,8 @@ def check_property(pid, tier, seed, shared=None):
     ev = {
         'property_id': pid, 'tier': tier, 'seed': seed, 'level': 'proof',
         'coverage': {
-            'obligations': len(mine), 'discharged': discharged,
+            'obligations': len(owed), 'discharged': discharged,
+            'obligations_excluded_as_known_findings': sorted(known_oids),
             'checker_cmd': res['cmd'].replace(os.path.dirname(res['cmd'].split()[1]), '<scratch>'),
             'trusted_base': sorted(set(G.trusted)),
             'functions_under_contract': fn_info,
@@ -213,7 +217,7 @@ def check_property(pid, tier, seed, shared=None):
             tail = '' if cex else ' no-failing-input-found'
             print('VIOLATION property=%s replay=%s%s' % (pid, rp, tail))
         return 1
-    print('OK property=%s obligations=%d discharged=%d functions=%d verus=%.1fs' % (pid, len(mine), discharged, len(fns), res['wall_s']))
+    print('OK property=%s obligations=%d discharged=%d functions=%d verus=%.1fs' % (pid, len(owed), discharged, len(fns), res['wall_s']))
     return 0
 
 
